@@ -16,15 +16,44 @@ def strip_generics_(p):
     return strip_generics(p)
 
 
+def _sym_atoms(body, e):
+    """Provenance atoms of the places at the leaves of a symbolic expression."""
+    out = set()
+    for l in sym_leaves(e):
+        if l[0] == "place":
+            out |= body.atoms({"l": l[4], "p": []})
+    return out
+
+
 def key_table(ctx, fn_regex, adt):
     """{(variant, qos|None): {'tag':(value,shift), 'id':(field,variant,shift)|None, 'bb':..}}"""
     b = ctx.flat(ctx.body(fn_regex), inline=r"::(tx_action_id|rx_action_id)$")      # helpers that compute the bit layout are inlined
     table = {}
-    for i in sorted(b.reach):
-        for st in b.blocks[i]["stmts"]:
-            if st["k"] != "assign" or st["lhs"]["l"] != 0 or st["lhs"]["p"]:
+
+    def ret_defs(local, depth=0):
+        """(block, statement) pairs that compute the function's result: assignments of the return place, looked through
+        a newtype wrapper / a move of a local that is itself assigned once per arm (`ActionId(match p { .. })`)."""
+        out_ = []
+        for d in b.whole_defs(local):
+            if d[0] != "stmt":
                 continue
+            rv = d[3]["rv"]
+            inner = None
+            if rv["k"] == "use" and rv["op"].get("k") in ("move", "copy") and not rv["op"]["pl"]["p"]:
+                inner = rv["op"]["pl"]["l"]
+            elif rv["k"] == "agg" and rv.get("what") == "adt" and len(rv["ops"]) == 1 and rv.get("variant") not in ("Some", "Ok", "Err") \
+                    and rv["ops"][0].get("k") in ("move", "copy") and not rv["ops"][0]["pl"]["p"]:
+                inner = rv["ops"][0]["pl"]["l"]
+            if inner is not None and depth < 4 and len(b.whole_defs(inner)) > 1:
+                out_ += ret_defs(inner, depth + 1)
+            else:
+                out_.append((d[1], d[3]))
+        return out_
+    for i, st in ret_defs(0):
+        if True:
             e = _symex_rv(b, st["rv"], 0)
+            while e[0] == "agg" and len(e[2]) == 1 and e[1] not in ("Some", "Ok", "Err"):
+                e = e[2][0]             # a newtype around the key (`ActionId(bits)`): the bits
             variant = None
             qos = None
             for (d, s_) in dominating_edges(b, i):
@@ -239,10 +268,17 @@ def lookup(ctx):
                 a, b_ = e0[2]
                 la = [l for l in sym_leaves(a) if l[0] == "place"]
                 lb = [l for l in sym_leaves(b_) if l[0] == "place"]
-                f0 = any(l[4] == 2 and any(str(f[1]) == "0" for f in l[2]) for l in la + lb) or any("_2" in l[1] and ".0" in l[1] for l in la + lb)
-                up = any(l[4] == 1 for l in la + lb)
+                # one side is (a component / the key accessor of) the element handed to the predicate, the other the
+                # searched key captured by the closure
+                def from_elem(x):
+                    return any(l[4] == 2 for l in sym_leaves(x) if l[0] == "place") or any(a_[0] == "param" and a_[1] == 2 for a_ in _sym_atoms(cb, x))
+
+                def from_key(x):
+                    return any(l[4] == 1 for l in sym_leaves(x) if l[0] == "place")
+                f0 = (from_elem(a) and not from_key(a)) or (from_elem(b_) and not from_key(b_))
+                up = (from_key(a) and not from_elem(a)) or (from_key(b_) and not from_elem(b_))
                 cl_ok = f0 and up
-                fact = "position(|(k,_)| k == key) over deque.iter(): field0=%s captured-key=%s plain-iter=%s%s" % (f0, up, iter_ok, " (adaptors: %s)" % adaptors if adaptors else "")
+                fact = "position(|elem| key_of(elem) == key) over deque.iter(): element-side=%s captured-key=%s plain-iter=%s%s" % (f0, up, iter_ok, " (adaptors: %s)" % adaptors if adaptors else "")
             else:
                 fact = "predicate is %s, not a plain equality" % (e0[:2],)
         ok = iter_ok and cl_ok
